@@ -145,6 +145,29 @@ def gen_waits():
     return "Waits.lean", "\n".join(lines)
 
 
+def gen_conc():
+    """Critical-section shape of the ring's bookkeeping functions: the Conc model (C03) treats each of
+    them as ONE atomic step, which holds iff the function takes the state lock once and does not
+    release it before its last state update."""
+    src = strip_rust(open(os.path.join(REPO, "src", "circular_buffer.rs")).read())
+    bodies = fn_bodies(src)
+    rows = []
+    for name in ["consume", "produce", "read_buf", "write_buf"]:
+        b = find_fn(bodies, r"^<T: Copy> Buffer<T>$", name)
+        locks = len(re.findall(r"\.lock\(\)", b))
+        writes = [m.start() for m in re.finditer(r"\bs\s*\.\s*[\w.()]+\s*(=[^=]|\+=|-=)|\bs\s*\.\s*tags\s*\.\s*(entry|retain|remove|insert|clear)", b)]
+        last_write = max(writes) if writes else -1
+        early_drops = len([m for m in re.finditer(r"\bdrop\(\s*s\s*\)", b) if m.start() < last_write])
+        rows.append((name, locks, early_drops))
+    lines = ["/-! GENERATED by tools/extract.py from /repo/src/circular_buffer.rs on every run: for `Buffer::consume`,",
+             "`produce`, `read_buf`, `write_buf` (in this order): (number of `lock()` calls, number of guard drops that",
+             "precede the function's last state update). Do not edit. -/",
+             "namespace RR.Gen", "",
+             "def lockShape : List (Nat × Nat) := [%s]" % ", ".join("(%d, %d)" % (l, d) for (_, l, d) in rows),
+             "", "end RR.Gen", ""]
+    return "Conc.lean", "\n".join(lines)
+
+
 def gen_hdlc():
     raw = open(os.path.join(REPO, "src", "hdlc_deframer.rs")).read()
     src = strip_rust(raw)
